@@ -421,6 +421,8 @@ static int cx_request(struct cx *c, int qt, int cfg, int mode)
 {
 	dp_rng_reset(); memset(&g_log, 0, sizeof g_log); g_qt = qt;
 	if (c->usock >= 0) { uint8_t junk[64]; while (recv(c->usock, junk, sizeof junk, 0) >= 0) MC_COUNT("harness_stale_datagram"); }   /* nothing may be left over */
+	/* connections a previous execution's resolver opened (TCP retransmission after SERVFAIL) may still sit in the listen backlog */
+	if (c->lsock >= 0) { int stale; while ((stale = accept4(c->lsock, NULL, NULL, SOCK_NONBLOCK | SOCK_CLOEXEC)) >= 0) { close(stale); MC_COUNT("harness_stale_tcp_connection"); } }
 	if (c->events0 < 0) { event_base_loop(c->eb, EVLOOP_NONBLOCK); c->events0 = event_base_get_num_events(c->eb, EVENT_BASE_COUNT_ADDED | EVENT_BASE_COUNT_ACTIVE); }
 	int flags = DNS_QUERY_NO_SEARCH | ((cfg & 1) ? DNS_CNAME_CALLBACK : 0) | (mode == M_TCP ? DNS_QUERY_USEVC : 0);
 	dp_rng_push_id(0x1234); if (cfg & 2) dp_rng_push_fill(0x5a);
